@@ -235,6 +235,7 @@ type PathResult struct {
 	Gor      string
 	Dec      []Decision
 	Model    []uint64
+	ModelAll []uint64 // including the choice variables (for symbolic re-execution)
 	SymNames []string
 	SymWidth []int
 	Obs      []ObsRecord
@@ -542,6 +543,7 @@ func (e *Explorer) runPath(sol *smt.Solver, spec *PathSpec) (*PathResult, []*Pat
 	// final model: the current model satisfies the PC; pad to all symbols
 	m := make([]uint64, len(i.ctx.Syms))
 	ev := smt.NewEvaluator(i.model)
+	res.ModelAll = append([]uint64(nil), m...)
 	m = m[:0]
 	for n, s := range i.ctx.Syms {
 		if strings.HasPrefix(i.ctx.Names[n], "choice#") {
